@@ -492,6 +492,13 @@ func (vc *VC) store(x *ssa.Store) {
 }
 
 func (vc *VC) disciplineStore(x *ssa.Store, l *LV, v Term) {
+	if props, ok := vc.e.cs.ImmutableField[l.nnKey]; ok && l.nnKey != "" && len(l.idx) == 1 {
+		// objects of this kind are shared between checks: only their creator may initialise them
+		if len(props) == 0 {
+			props = []string{"C09"}
+		}
+		vc.check("immutable-store", x.Pos(), l.nnKey+" = "+vc.exprText(x.Pos()), Gt(l.idx[0], "alloc!0"), props)
+	}
 	if l.nnKey != "" && vc.e.cs.FoldedElems[l.nnKey] {
 		if st, ok := l.typ.Underlying().(*types.Slice); ok {
 			en, es := vc.e.elemArr(st.Elem())
@@ -811,7 +818,7 @@ func (vc *VC) lookup(x *ssa.Lookup) {
 	case *types.Map:
 		m, k := vc.v(x.X), vc.v(x.Index)
 		if tn := vc.e.typeName(x.X.Type()); vc.e.cs.FoldedKeys[tn] {
-			if ob := vc.check("folded-key", x.Pos(), "", sx("folded", k), []string{"C08"}); ob != nil {
+			if ob := vc.check("folded-key", x.Pos(), "", sx("folded", k), append([]string{"C08"}, vc.e.cs.FoldedKeyProps[tn]...)); ob != nil {
 				ob.Detail = tn
 			}
 		}
@@ -875,7 +882,7 @@ func (vc *VC) mapUpdate(x *ssa.MapUpdate) {
 func (vc *VC) disciplineMapUpdate(x *ssa.MapUpdate, m, k, v Term) {
 	tn := vc.e.typeName(x.Map.Type())
 	if vc.e.cs.FoldedKeys[tn] {
-		if ob := vc.check("folded-key", x.Pos(), "", sx("folded", k), []string{"C08"}); ob != nil {
+		if ob := vc.check("folded-key", x.Pos(), "", sx("folded", k), append([]string{"C08"}, vc.e.cs.FoldedKeyProps[tn]...)); ob != nil {
 			ob.Detail = tn
 		}
 	}
@@ -1034,16 +1041,9 @@ func (vc *VC) ret(x *ssa.Return) {
 		var reaches []Term
 		for _, blk := range vc.fn.Blocks {
 			for _, ins := range blk.Instrs {
-				if c, ok := ins.(*ssa.Call); ok {
-					if bi, ok := c.Call.Value.(*ssa.Builtin); ok && bi.Name() == bc.Fn {
-						if r, ok := vc.reach[blk.Index]; ok && vc.innermostLoop(blk.Index) < 0 {
-							reaches = append(reaches, r)
-						}
-					}
-					if g := c.Call.StaticCallee(); g != nil && (vc.e.fname(g) == bc.Fn || libName(g) == bc.Fn) {
-						if r, ok := vc.reach[blk.Index]; ok && vc.innermostLoop(blk.Index) < 0 {
-							reaches = append(reaches, r)
-						}
+				if vc.matchesBodyCall(ins, bc.Fn) {
+					if r, ok := vc.reach[blk.Index]; ok && vc.innermostLoop(blk.Index) < 0 {
+						reaches = append(reaches, r)
 					}
 				}
 			}
@@ -1058,7 +1058,11 @@ func (vc *VC) ret(x *ssa.Return) {
 		if len(bc.Props) > 0 {
 			pr = bc.Props
 		}
-		vc.check("body-calls", token.NoPos, bc.Text, Imp(wfs, Eq(Or(reaches...), t.t)), pr)
+		kind := "body-calls"
+		if strings.HasPrefix(bc.Fn, "store:") {
+			kind = "body-stores"
+		}
+		vc.check(kind, token.NoPos, bc.Text, Imp(wfs, Eq(Or(reaches...), t.t)), pr)
 	}
 	for _, c := range vc.con.Ensures {
 		if vc.con.Trusted != "" && !c.Auto {
